@@ -17,9 +17,16 @@ What is modelled
   proposed fixes and finds F14/F15/F24 in the as-it-was variants (Algo_asis_*.cfg). Design check only: the binding
   to the code is the case replay of part 1.
   Part 2 (ConvApply): one action per step of the event-handler loop; hook outcome per step in {exit1, empty,
-  malformed, failmsg, ok, drop, extra}; invariants InChainOrder, StopsAtFirstFailure, FailedCarriesHookMessage,
+  malformed, failmsg, failobj, ok, drop, extra} ("failobj" = the response carries a failedMessage AND every object
+  converted to the promised version: a failed step exactly like failmsg - Failed, with that hook's message, no later
+  step, whatever the objects look like); invariants InChainOrder, StopsAtFirstFailure, FailedCarriesHookMessage,
   SuccessOnlyIfAllOkAndCountMatches, ServedWhenAllOk; Apply_asis_*.cfg show TLC finding F16/F17 in the model of the
-  code as it was.
+  code as it was. Two more dimensions of a case are chosen by TLC and do not influence the expected run: `variant`
+  (how the rules are spelled, rules that are not on the chain in a third hook) and `layout` (how the rules of the
+  chain are spread over hooks and bindings: "perhook" = hook-a / hook-b alternating with one conversion binding each,
+  "split" = ONE hook with TWO conversion bindings for the same crdName - the documented up/down layout - odd steps in
+  the first binding, even steps in the second, for a chain of one step the rule in the first binding and an unrelated
+  rule in the second, so that a rule of the non-last binding is needed by every request).
 
 Binding / what the oracle demands (verdicts only from executions of the real code)
   (R) search cases: one real conversion.ChainStorage per case (the paths cache persists over the requests of the
@@ -30,18 +37,19 @@ Binding / what the oracle demands (verdicts only from executions of the real cod
       A sound chain that visits a version twice is accepted (note, no failure).
   (R) application cases: HTTP POST of a ConversionReview to the real conversion.NewWebhookHandler() router
       (httptest, no TLS), the real ShellOperator.conversionEventHandler (verif_export.go shim), the real
-      hook.Manager (hooks directory with two chain hooks + optionally a third hook serving rules that are not on the
+      hook.Manager (hooks directory as the case's layout says: two chain hooks with one binding each, or one chain
+      hook with two conversion bindings for the CRD; optionally a third hook serving rules that are not on the
       chain), real Hook.Run with hook processes (cmd/convhook) that log what they received. Compared with the TLC
       behaviour: which hooks ran in which order on which input, result.status, the hook's message inside
-      result.message when the failing hook gave one, uid echo, on Success n objects of the desired version that
-      went through every rule of the chain in order.
+      result.message when the failing hook gave one (with or without converted objects next to it), uid echo, on
+      Success n objects of the desired version that went through every rule of the chain in order.
 
 Excluded from the generated domain (statement silent / unsatisfiable), never counted as violations
   * a version name that exists in two API groups is only ever written with its group (written short it would be
     ambiguous which version is meant); requests never have from = to; no rule converts a version to itself;
   * application: all objects of a request share one source version (quantifier of the property); at most one step
     changes the number of objects and a hook is never handed zero objects; hooks always produce the version their
-    rule promises; a failing hook writes no converted objects;
+    rule promises (also when they fail with a message and objects);
   * result.status of a failed review is accepted as "Failed" or "Failure" (the API server only tests for "Success").
 """
 import concurrent.futures
@@ -63,7 +71,7 @@ APPLY_CFG = {"quick": "Apply_quick.cfg", "thorough": "Apply_thorough.cfg"}
 ALGO_CFGS = {"quick": ["Algo_quick.cfg"], "thorough": ["Algo_names.cfg", "Algo_spell.cfg", "Algo_groups.cfg", "Algo_deep.cfg"]}
 ALGO_ASIS = [("Algo_asis_substr.cfg", "AnswerSound"), ("Algo_asis_alias.cfg", "CacheValid"), ("Algo_asis_loopguard.cfg", "AnswerComplete")]
 ECHO_SAMPLE = {"quick": 1500, "thorough": 6000}
-FAIL_KINDS = ("exit1", "empty", "malformed", "failmsg")
+FAIL_KINDS = ("exit1", "empty", "malformed", "failmsg", "failobj")
 
 
 # ------------------------------------------------------------------------------------------------
@@ -190,13 +198,14 @@ def search_batch(ctx, bins, cfg, cases, rnd, stats):
 def apply_cases(ctx, bins, cases, stats):
     for c in cases:
         c["kind"] = "apply"
-    cases.sort(key=lambda c: (c["variant"], c["len"]))
+    cases.sort(key=lambda c: (c["variant"], c.get("layout", "perhook"), c["len"]))
     shards = 3 if ctx.quick() else 6
     parts = [cases[i::shards] for i in range(shards)]
     with concurrent.futures.ThreadPoolExecutor(max_workers=shards) as ex:
         futs = [ex.submit(run_cases, ctx, bins, p, "apply%d" % i, 3000) for i, p in enumerate(parts) if p]
         results = [f.result() for f in futs]
     kinds = {}
+    layouts = stats.setdefault("apply_layouts", {})
     for p, res in zip([p for p in parts if p], results):
         for c, rr in zip(p, res):
             stats["apply_cases"] += 1
@@ -205,6 +214,9 @@ def apply_cases(ctx, bins, cases, stats):
                 stats["apply_nontrivial"] += 1
             for k in c["outc"][:len(c["invoked"])]:
                 kinds[k] = kinds.get(k, 0) + 1
+            if c["invoked"]:   # expected by TLC (not what the real code did): a request that needs the hooks of this layout
+                lay = c.get("layout", "perhook")
+                layouts[lay] = layouts.get(lay, 0) + 1
             if not rr["ok"]:
                 stats["failed"] += 1
                 ctx.fail(rr["sig"], rr["detail"], {"kind": "apply", "case": c, "observed": rr.get("obs")})
@@ -277,13 +289,24 @@ def check_c15(ctx):
     kinds = apply_cases(ctx, bins, acases, stats)
     ctx.log("replayed %d application cases end to end (%d hook processes); outcomes of the steps that ran: %s; failures so far: %d"
             % (stats["apply_cases"], stats["hook_runs"], kinds, stats["failed"]))
+    ctx.log("application cases in which a hook has to run, by hook layout: %s" % stats["apply_layouts"])
     ctx.cov["apply_step_outcomes"] = kinds
-    for want in ("ok", "failmsg", "exit1", "empty", "malformed", "drop", "extra"):
+    ctx.cov["apply_layouts"] = stats["apply_layouts"]
+    for want in ("ok", "failmsg", "failobj", "exit1", "empty", "malformed", "drop", "extra"):
         if not kinds.get(want):
             raise Infra("vacuous: no application case exercised outcome %s" % want)
+    for want in ("perhook", "split"):
+        if not stats["apply_layouts"].get(want):
+            raise Infra("vacuous: no application case needs a hook of layout %s" % want)
+    if not any(c["len"] >= 1 and c["outc"][c["len"] - 1] == "failobj" and len(c["invoked"]) == c["len"] for c in acases):
+        raise Infra("vacuous: no application case in which the LAST step fails with a message and objects of the desired version")
     ex = [c for c in acases if c["len"] == 3 and c["outc"][1] == "failmsg" and c["outc"][0] == "ok"]
     if ex:
         ctx.sample({"apply": {"len": 3, "n": ex[0]["n"], "variant": ex[0]["variant"], "outc": ex[0]["outc"],
+                              "expected": {"invoked": ex[0]["invoked"], "status": ex[0]["status"], "msg": ex[0]["msg"]}}})
+    ex = [c for c in acases if c["len"] == 2 and c["outc"] == ["ok", "failobj"] and c.get("layout") == "split"]
+    if ex:
+        ctx.sample({"apply": {"len": 2, "n": ex[0]["n"], "variant": ex[0]["variant"], "layout": ex[0]["layout"], "outc": ex[0]["outc"],
                               "expected": {"invoked": ex[0]["invoked"], "status": ex[0]["status"], "msg": ex[0]["msg"]}}})
     ex = [c for c in acases if c["len"] == 2 and c["outc"] == ["ok", "drop"]]
     if ex:
@@ -334,7 +357,7 @@ def check_c15(ctx):
     ]
     vlib.finish(ctx, rule="search: cases = (rule graph, request sequence) states of spec/Conversion/ConvSearch enumerated exhaustively by TLC for the "
                           "listed cfgs; non-trivial = some request has >= 2 admissible chains or needs >= 2 steps; "
-                          "apply: cases = terminal states of ConvApply; non-trivial = chain of >= 2 steps or a step that is not plain ok; "
+                          "apply: cases = terminal states of ConvApply (chain length x objects x outcome per step x rule spelling x hook layout); non-trivial = chain of >= 2 steps or a step that is not plain ok; "
                           "evaluations = requests answered by the real FindConversionChain + reviews answered by the real handler")
 
 
@@ -349,10 +372,14 @@ MANIFEST = {
              "requests), answers outside the listed set are judged by TLC (ConvSearchTrace). The application protocol (ConvApply: "
              "InChainOrder, StopsAtFirstFailure, FailedCarriesHookMessage, SuccessOnlyIfAllOkAndCountMatches, ServedWhenAllOk) is "
              "model-checked and every terminal behaviour is replayed end to end: ConversionReview over HTTP into the real handler, "
-             "the production conversionEventHandler, real hook manager and hook processes with scripted outcomes.",
+             "the production conversionEventHandler, real hook manager and hook processes with scripted outcomes (exit 1, empty, "
+             "malformed, failedMessage, failedMessage together with converted objects, all / one missing / one extra object), the "
+             "rules of the chain declared either by two hooks or by one hook with two conversion bindings for the same CRD.",
         note="Trusts TLC, the verif_export.go forwarding shim and the hook helper. Bounds: search <= 7 versions, <= 10 candidate "
-             "conversions, <= 3 requests per storage; application chains of <= 3 (thorough 4) steps, <= 2 (3) objects, 7 outcomes per "
-             "step. TLS listener / CRD clientConfig patching are not exercised. A name used in two API groups is always written with "
+             "conversions, <= 3 requests per storage; application chains of <= 3 (thorough 4) steps, <= 2 (3) objects, 8 outcomes per "
+             "step, 2 hook layouts (two hooks with one binding each; one hook with two bindings for the CRD), 2 (5) rule-spelling "
+             "variants. A hook that fails with a message never has its objects used, whatever they are; hooks always produce the "
+             "version their rule promises. TLS listener / CRD clientConfig patching are not exercised. A name used in two API groups is always written with "
              "its group.",
         technique="TLA+ reference specification + TLC exhaustive enumeration; case replay into the real ChainStorage and the real HTTP "
                   "handler/operator/hook processes; TLC evaluation of recorded answers",
